@@ -72,7 +72,7 @@ def confuse(v, rng):
                            {'$ne': None}, True, None, 0])
     if isinstance(v, list):
         return rng.choice([list(reversed(v)) if len(v) > 1 and v != list(reversed(v)) else v + [v[0] if v else 0],
-                           v[:-1], v + v[:1], tuple(v) if False else {str(i): x for i, x in enumerate(v)}, None])
+                           v[:-1], v + v[:1], {str(i): x for i, x in enumerate(v)}, None])
     if isinstance(v, dict):
         return mutate_dict(v, rng)
     return None
@@ -160,22 +160,48 @@ def no_integral_float(v):
 # --------------------------------------------------------------------------------------
 # configured predicates
 # --------------------------------------------------------------------------------------
-class Pred:
-    """A configured predicate with a recorder: what it returned / raised for the last call."""
+EXC = {'KeyError': KeyError, 'ValueError': ValueError, 'TypeError': TypeError, 'RuntimeError': RuntimeError,
+       'ZeroDivisionError': ZeroDivisionError}
+CONST_RESULTS = [True, False, 1, 0, 'yes', '', None, [], [0], {}, {'ok': False}, 2.5]
 
-    def __init__(self, kind, is_coro, fn_body, obj_id):
-        self.kind = kind
-        self.is_coro = is_coro
-        self.body = fn_body
+
+class Pred:
+    """A configured predicate built from a literal description `spec` (so that a replay can rebuild
+    it), with a recorder of what it returned / raised for the last call.
+    spec = {'kind': eq|const|key|get|raise, 'shape': function|coroutine|async-callable, 'cred': dict,
+            'value': const result, 'exc': exception name}"""
+
+    def __init__(self, spec, obj_id):
+        self.spec = spec
+        self.kind = spec['kind']
+        self.shape = spec['shape']
+        self.is_coro = self.shape == 'coroutine'
         self.obj = Obj(obj_id)
         self.last = None
+        kind, cred = self.kind, spec.get('cred')
+        if kind == 'eq':
+            self.body = lambda a: a == cred
+        elif kind == 'const':
+            self.body = lambda a: copy.deepcopy(spec['value'])
+        elif kind == 'key':
+            k0 = list(cred)[0]
+            self.body = lambda a: a[k0] == cred[k0]             # KeyError / TypeError on odd payloads
+        elif kind == 'get':
+            k0 = list(cred)[0]
+            self.body = lambda a: isinstance(a, dict) and a.get(k0)
+        else:
+            exc = EXC[spec['exc']]
+
+            def body(a):
+                raise exc('scripted')
+            self.body = body
         p = self
-        if kind == 'acall':
+        if self.shape == 'async-callable':
             class AsyncCallable:
                 async def __call__(self, auth):
                     return p._run(auth)
             self.fn = AsyncCallable()
-        elif is_coro:
+        elif self.is_coro:
             async def predicate(auth):
                 return p._run(auth)
             self.fn = predicate
@@ -201,50 +227,43 @@ class Pred:
             return False, coqio.exn_name(e)
 
 
-CONST_RESULTS = [True, False, 1, 0, 'yes', '', None, [], [0], {}, {'ok': False}, 2.5]
-
-
-def gen_pred(rng, allow_coro, cred, obj_id, kinds=None):
+def gen_pred(rng, allow_coro, cred, obj_id, kinds=None, shape=None):
     kind = rng.choice(kinds or ['eq', 'eq', 'const', 'const', 'key', 'get', 'raise'])
-    is_coro = allow_coro and rng.random() < 0.5
-    if kind == 'eq':
-        body = lambda a: a == cred                              # noqa: E731
-    elif kind == 'const':
-        v = rng.choice(CONST_RESULTS)
-        body = lambda a: copy.deepcopy(v)                       # noqa: E731
-    elif kind == 'key':
-        k0 = list(cred)[0]
-        body = lambda a: a[k0] == cred[k0]                      # noqa: E731  KeyError / TypeError on odd payloads
-    elif kind == 'get':
-        k0 = list(cred)[0]
-        body = lambda a: isinstance(a, dict) and a.get(k0)      # noqa: E731
-    else:
-        exc = rng.choice([KeyError, ValueError, TypeError, RuntimeError, ZeroDivisionError])
+    spec = {'kind': kind, 'cred': cred,
+            'shape': shape or ('coroutine' if allow_coro and rng.random() < 0.5 else 'function')}
+    if kind == 'const':
+        spec['value'] = rng.choice(CONST_RESULTS)
+    if kind == 'raise':
+        spec['exc'] = rng.choice(sorted(EXC))
+    return Pred(spec, obj_id)
 
-        def body(a):
-            raise exc('scripted')
-    return Pred(kind, is_coro, body, obj_id)
+
+def build_auth(desc, obj_id=7):
+    """(real auth value, printed auth value, Pred or None) from the literal description stored in replays."""
+    if desc['kind'] == 'predicate':
+        p = Pred(desc['spec'], obj_id)
+        return p.fn, p.obj, p
+    return copy.deepcopy(desc['value']), copy.deepcopy(desc['value']), None
 
 
 def gen_auth_config(rng, is_async, obj_id, with_out_of_domain=True):
-    """(label, real auth value, printed auth value, creds list for the payload generator, Pred or None)."""
+    """(label, literal description, creds list for the payload generator)."""
     r = rng.random()
     if r < 0.30:
         c = copy.deepcopy(rng.choice(CREDS))
-        return 'dict', c, c, [c], None
+        return 'dict', {'kind': 'value', 'value': c}, [c]
     if r < 0.55:
         n = rng.randrange(1, 4)
         cs = [copy.deepcopy(x) for x in rng.sample(CREDS, n)]
-        return 'list', cs, cs, cs, None
+        return 'list', {'kind': 'value', 'value': cs}, cs
     if r < 0.85:
         c = copy.deepcopy(rng.choice(CREDS))
         p = gen_pred(rng, True, c, obj_id)
-        lab = 'predicate-' + ('coroutine' if p.is_coro else 'sync')
-        return lab, p.fn, p.obj, [c], p
+        return 'predicate-' + p.shape, {'kind': 'predicate', 'spec': p.spec}, [c]
     if r < 0.93 or not with_out_of_domain:
-        return 'False', False, False, [], None
+        return 'False', {'kind': 'value', 'value': False}, []
     v = rng.choice([{}, [], 0, ''])
-    return 'falsy-not-False', v, v, [], None
+    return 'falsy-not-False', {'kind': 'value', 'value': v}, []
 
 
 def c_acfg(auth_printed, read_only, mode, ns):
@@ -276,66 +295,87 @@ def direct_call(d, payload):
     return main()
 
 
+def tv_case(is_async, desc, mode, ro, payloads, d=None):
+    """Run the real admin_connect directly on each payload.  Returns list of (term, accepted)."""
+    async def main():
+        auth, auth_p, pred = build_auth(desc)
+        admin = {'auth': auth, 'mode': mode, 'read_only': ro}
+        drv = admin_drv.AdminServerDriver(MIN_CFG, 'async' if is_async else 'sync', False, admin)
+        out = []
+        for payload in payloads:
+            if pred is not None:
+                pred.last = None
+            ok, val = await direct_call(drv, copy.deepcopy(payload))
+            drv.bg = []
+            call = pred.last if (pred is not None and pred.last is not None) else (False, 'OtherError')
+            iscoro = bool(pred is not None and asyncio.iscoroutinefunction(pred.fn))
+            out.append(('(TV %s %s %s %s %s %s)' % (cbool(is_async), c_acfg(auth_p, ro, mode, '/admin'), pv(payload),
+                                                     c_res(*call), cbool(iscoro), c_res(ok, val)), ok))
+        return out
+    return asyncio.run(main())
+
+
 def part_a(chk, cases, meta):
     rng = chk.rng.sub('a')
-    n_cfg = 260 if chk.thorough else 45
-    per = 22 if chk.thorough else 9
+    n_cfg = 700 if chk.thorough else 45
+    per = 25 if chk.thorough else 9
+    for i in range(n_cfg):
+        is_async = (i % 2 == 1)
+        lab, desc, creds = gen_auth_config(rng, is_async, 7 + i)
+        mode, ro = rng.choice(MODES)
+        labelled = []
+        for _ in range(per):
+            plab, payload = gen_payload(rng, creds, True)
+            if payload == ABSENT:
+                payload = None
+            if no_integral_float(payload):
+                labelled.append((plab, payload))
+        try:
+            results = tv_case(is_async, desc, mode, ro, [x for _, x in labelled])
+        except Exception as e:
+            chk.broken_obligation('driver error in TV configuration %d: %r' % (i, e))
+            continue
+        for (plab, payload), (term, ok) in zip(labelled, results):
+            cases.append(term)
+            meta.append({'part': 'TV', 'async': is_async, 'config': lab, 'payload': plab,
+                         'replay': {'part': 'TV', 'async': is_async, 'auth': repr(desc), 'mode': mode, 'read_only': ro,
+                                    'payload': repr(payload)}})
+            chk.count(1, ('TV', is_async, lab, plab, ok),
+                      {'part': 'TV', 'class': 'async' if is_async else 'sync', 'auth': lab, 'payload': plab,
+                       'accepted': ok} if len(chk.samples) < 2 else None)
+            chk.dist('TV config ' + lab)
+            chk.dist('payload ' + plab)
 
-    async def main():
-        for i in range(n_cfg):
-            is_async = (i % 2 == 1)
-            lab, auth, auth_p, creds, pred = gen_auth_config(rng, is_async, 7 + i)
-            mode, ro = rng.choice(MODES)
-            admin = {'auth': auth, 'mode': mode, 'read_only': ro}
-            d = admin_drv.AdminServerDriver(MIN_CFG, 'async' if is_async else 'sync', False, admin)
-            for _ in range(per):
-                plab, payload = gen_payload(rng, creds, True)
-                if payload == ABSENT:
-                    payload = None
-                if not no_integral_float(payload):
-                    continue
-                if pred is not None:
-                    pred.last = None
-                ok, val = await direct_call(d, copy.deepcopy(payload))
-                d.bg = []
-                call = pred.last if (pred is not None and pred.last is not None) else (False, 'OtherError')
-                iscoro = bool(pred is not None and asyncio.iscoroutinefunction(pred.fn))
-                term = '(TV %s %s %s %s %s %s)' % (cbool(is_async), c_acfg(auth_p, ro, mode, '/admin'), pv(payload),
-                                                  c_res(*call), cbool(iscoro), c_res(ok, val))
+    # instrument(): every mode / read_only value, both classes
+    partial_seen = []
+    ro_values = [False, True, 0, 1, '', 'yes', None, [], [0]]
+    mode_values = ['development', 'production', 'Development', 'dev', '', None, 1]
+    for is_async in (False, True):
+        for mode in mode_values:
+            for ro in ro_values:
+                ns = rng.choice(['/admin', '/admin', '/ops', '/a/b'])
+                term, flags = iv_case(is_async, mode, ro, ns)
+                if any(flags) != all(flags) and not partial_seen:
+                    partial_seen.append(flags)
+                    chk.broken_obligation('instrument() installed only some of the four wrappers '
+                                          '[_trigger_event, basic_enter_room, basic_leave_room, emit]: %r '
+                                          '(mode %r)' % (flags, mode))
                 cases.append(term)
-                key = ('TV', is_async, lab, plab, ok)
-                meta.append({'part': 'TV', 'async': is_async, 'config': lab, 'payload': plab,
-                             'replay': {'part': 'TV', 'async': is_async, 'auth': repr(auth_p), 'payload': repr(payload),
-                                        'pred': pred.kind if pred else None}})
-                chk.count(1, key, {'part': 'TV', 'class': 'async' if is_async else 'sync', 'auth': lab, 'payload': plab,
-                                   'accepted': ok} if len(chk.samples) < 2 else None)
-                chk.dist('TV config ' + lab)
-                chk.dist('payload ' + plab)
-        # instrument(): every mode / read_only value, both classes
-        partial_seen = []
-        ro_values = [False, True, 0, 1, '', 'yes', None, [], [0]]
-        mode_values = ['development', 'production', 'Development', 'dev', '', None, 1]
-        for is_async in (False, True):
-            for mode in mode_values:
-                for ro in ro_values:
-                    ns = rng.choice(['/admin', '/admin', '/ops', '/a/b'])
-                    admin = {'auth': False, 'mode': mode, 'read_only': ro, 'namespace': ns}
-                    d = admin_drv.AdminServerDriver(MIN_CFG, 'async' if is_async else 'sync', False, admin)
-                    flags = d.app_path_patched()
-                    if any(flags) != all(flags) and not partial_seen:
-                        partial_seen.append(flags)
-                        chk.broken_obligation('instrument() installed only some of the four wrappers '
-                                              '[_trigger_event, basic_enter_room, basic_leave_room, emit]: %r '
-                                              '(mode %r)' % (flags, mode))
-                    events = d.admin_handlers()
-                    term = '(IV %s %s %s %s)' % (cbool(is_async), c_acfg(False, ro, mode, ns),
-                                                 clist([cstr(e) for e in events]), cbool(any(flags)))
-                    cases.append(term)
-                    meta.append({'part': 'IV', 'replay': {'part': 'IV', 'async': is_async, 'mode': repr(mode),
-                                                          'read_only': repr(ro)}})
-                    chk.count(1, ('IV', is_async, repr(mode), repr(ro)))
-                    chk.dist('IV')
-    asyncio.run(main())
+                meta.append({'part': 'IV', 'replay': {'part': 'IV', 'async': is_async, 'mode': repr(mode),
+                                                      'read_only': repr(ro), 'namespace': ns}})
+                chk.count(1, ('IV', is_async, repr(mode), repr(ro)))
+                chk.dist('IV')
+
+
+def iv_case(is_async, mode, ro, ns):
+    async def main():
+        admin = {'auth': False, 'mode': mode, 'read_only': ro, 'namespace': ns}
+        d = admin_drv.AdminServerDriver(MIN_CFG, 'async' if is_async else 'sync', False, admin)
+        flags = d.app_path_patched()
+        term = '(IV %s %s %s %s)' % (cbool(is_async), c_acfg(False, ro, mode, ns),
+                                     clist([cstr(e) for e in d.admin_handlers()]), cbool(any(flags)))
+        return term, flags
+    return asyncio.run(main())
 
 
 # --------------------------------------------------------------------------------------
@@ -368,42 +408,53 @@ def answers_of(effs, eio, ns):
     return out, events
 
 
-def run_cn(is_async, always, admin, payload, pred):
+def cn_case(is_async, always, mode, ro, desc, payload):
+    """One CONNECT on the admin namespace through the real connect path.  Returns (term, info)."""
+    auth, auth_p, pred = build_auth(desc)
     cfg = dict(MIN_CFG)
     cfg['always_connect'] = always
     ops = [('eio_connect', 'e0', {'REMOTE_ADDR': 'e0'}), ('msg', 'e0', server_hist.eio_decode(server_hist.frame(0, '/'))),
            ('admin_eio_connect', 'a0'), ('admin_connect', 'a0', payload)]
-    if pred is not None:
-        pred.last = None
     with warnings.catch_warnings():
         warnings.simplefilter('ignore')
-        res, dump, d = admin_drv.run_ops(cfg, ops, 'async' if is_async else 'sync', False, admin)
+        res, dump, d = admin_drv.run_ops(cfg, ops, 'async' if is_async else 'sync', False,
+                                         {'auth': auth, 'mode': mode, 'read_only': ro})
     effs = res[3][0]
     answers, events = answers_of(effs, 'a0', d.admin_ns)
     member = any(eio == 'a0' for _, eio in d.admin_members())
     bystander = [e for e in effs if e[0] == 'Out' and e[1] == 'e0'] + [e for e in effs if e[0] == 'Call']
-    return answers, events, member, bystander
+    data = decode_connect_data(payload)
+    eff = data if data else None
+    if pred is None:
+        call = (False, 'OtherError')
+    elif pred.shape == 'async-callable' or pred.last is None:
+        call = pred.intended(eff)       # never awaited / never run: what the predicate would answer
+    else:
+        call = pred.last
+    iscoro = bool(pred is not None and asyncio.iscoroutinefunction(pred.fn))
+    term = '(CN %s %s %s %s %s %s %s %s)' % (cbool(is_async), cbool(always), c_acfg(auth_p, ro, mode, '/admin'),
+                                             pv(data), c_res(*call), cbool(iscoro), clist(answers), cbool(member))
+    return term, {'answers': answers, 'events': events, 'member': member, 'bystander': bystander, 'call': call,
+                  'shape': pred.shape if pred else None, 'pred': pred.kind if pred else None}
 
 
 def part_b(chk, cases, meta):
     rng = chk.rng.sub('b')
-    n = 2600 if chk.thorough else 330
+    n = 9000 if chk.thorough else 330
     for i in range(n):
         is_async = (i % 2 == 1)
         always = rng.random() < 0.2
         mode, ro = MODES[i % 4]
         if rng.random() < 0.06 and is_async:
             c = copy.deepcopy(rng.choice(CREDS))
-            pred = gen_pred(rng, False, c, 900 + i, ['eq', 'const'])
-            pred = Pred('acall', False, pred.body, 900 + i)
-            lab, auth, auth_p, creds = 'predicate-async-callable-object', pred.fn, pred.obj, [c]
+            p = gen_pred(rng, False, c, 900 + i, ['eq', 'const'], shape='async-callable')
+            lab, desc, creds = 'predicate-async-callable', {'kind': 'predicate', 'spec': p.spec}, [c]
         else:
-            lab, auth, auth_p, creds, pred = gen_auth_config(rng, is_async, 900 + i)
-            if pred is not None and pred.is_coro and not is_async:
-                # a coroutine function on the threaded server is a documented misuse; keep a few
-                if rng.random() < 0.7:
-                    pred = Pred(pred.kind, False, pred.body, 900 + i)
-                    auth, auth_p, lab = pred.fn, pred.obj, 'predicate-sync'
+            lab, desc, creds = gen_auth_config(rng, is_async, 900 + i)
+            if desc['kind'] == 'predicate' and desc['spec']['shape'] == 'coroutine' and not is_async and rng.random() < 0.7:
+                # a coroutine function on the threaded server is a documented misuse; keep only a few
+                desc['spec']['shape'] = 'function'
+                lab = 'predicate-function'
         plab, payload = gen_payload(rng, creds, False)
         if payload != ABSENT and not no_integral_float(payload):
             continue
@@ -412,46 +463,30 @@ def part_b(chk, cases, meta):
         except Exception:
             chk.dist('CN payload not expressible on the wire (top-level number)')
             continue
-        admin = {'auth': auth, 'mode': mode, 'read_only': ro}
         try:
-            answers, events, member, bystander = run_cn(is_async, always, admin, payload, pred)
+            term, info = cn_case(is_async, always, mode, ro, desc, payload)
         except Exception as e:
             chk.broken_obligation('driver error in CN case %d: %r' % (i, e))
             continue
-        try:
-            data = decode_connect_data(payload)
-        except Exception:
-            chk.dist('CN payload not expressible on the wire (top-level number)')
-            continue
-        eff = data if data else None
-        if pred is None:
-            call = (False, 'OtherError')
-        elif pred.kind == 'acall' or pred.last is None:
-            call = pred.intended(eff)
-        else:
-            call = pred.last
-        iscoro = bool(pred is not None and asyncio.iscoroutinefunction(pred.fn))
-        term = '(CN %s %s %s %s %s %s %s %s)' % (cbool(is_async), cbool(always), c_acfg(auth_p, ro, mode, '/admin'),
-                                                 pv(data), c_res(*call), cbool(iscoro), clist(answers), cbool(member))
         cases.append(term)
-        m = {'part': 'CN', 'config': lab, 'payload': plab, 'pred': pred.kind if pred else None,
-             'call_ok': call[0], 'member': member, 'async': is_async,
-             'replay': {'part': 'CN', 'async': is_async, 'always_connect': always, 'mode': mode, 'read_only': ro,
-                        'auth': repr(auth_p), 'auth_kind': lab, 'pred': pred.kind if pred else None,
-                        'payload': repr(payload), 'answers': answers, 'member': member,
-                        'predicate_result': repr(call)}}
+        rep = {'part': 'CN', 'async': is_async, 'always_connect': always, 'mode': mode, 'read_only': ro,
+               'auth': repr(desc), 'auth_kind': lab, 'payload': repr(payload), 'answers': info['answers'],
+               'member': info['member'], 'predicate_result': repr(info['call'])}
+        m = {'part': 'CN', 'config': lab, 'payload': plab, 'pred': info['pred'], 'shape': info['shape'],
+             'call_ok': info['call'][0], 'member': info['member'], 'async': is_async, 'replay': rep}
         meta.append(m)
-        key = ('CN', is_async, always, mode, ro, lab, plab, member, len(answers))
+        key = ('CN', is_async, always, mode, ro, lab, plab, info['member'], len(info['answers']))
         chk.count(1, key, {'part': 'CN', 'class': 'async' if is_async else 'sync', 'auth': lab, 'payload': plab,
-                           'mode': mode, 'read_only': ro, 'member_after': member,
-                           'answers': answers} if i < 2 else None)
+                           'mode': mode, 'read_only': ro, 'member_after': info['member'],
+                           'answers': info['answers']} if i < 2 else None)
         chk.dist('CN config ' + lab)
         chk.dist('CN payload ' + plab)
-        chk.dist('CN refused attempt also received %d admin events' % len(events) if not member else 'CN accepted')
-        if bystander:
+        chk.dist('CN accepted' if info['member'] else
+                 'CN refused attempt also received %d admin events' % len(info['events']))
+        if info['bystander']:
             chk.violation('admin-connect-visible-to-application',
-                          'an admin connection attempt produced effects for an application client: %r' % (bystander[:3],),
-                          m['replay'])
+                          'an admin connection attempt produced effects for an application client: %r'
+                          % (info['bystander'][:3],), rep)
 
 
 # --------------------------------------------------------------------------------------
@@ -473,14 +508,29 @@ def app_view(dump, admin_ns, admin_eios):
     return d
 
 
+RO_SETUP = [('eio_connect', 'e0', {'REMOTE_ADDR': 'e0'}), ('msg', 'e0', '0'),
+            ('eio_connect', 'e1', {'REMOTE_ADDR': 'e1'}), ('msg', 'e1', '0/chat,'), ('msg', 'e1', '0'),
+            ('enter', 'S0', 'r1', '/'), ('enter', 'S2', 'r1', '/'),
+            ('admin_eio_connect', 'a0'), ('admin_connect', 'a0', {'u': 'x'})]
+
+
+def ro_case(is_async, coro, mode, ro, ev, args, pid):
+    admin = {'auth': {'u': 'x'}, 'mode': mode, 'read_only': ro}
+    ops = RO_SETUP + [('admin_event', 'a0', ev, args, pid)]
+    m = 'async' if is_async else 'sync'
+    res0, dump0, d0 = admin_drv.run_ops(RO_CFG, RO_SETUP, m, coro, admin)
+    res, dump, d = admin_drv.run_ops(RO_CFG, ops, m, coro, admin)
+    effs = res[-1][0]
+    app_effs = [e for e in effs if (e[0] == 'Out' and e[1] != 'a0') or e[0] in ('Call', 'CbCall')]
+    changed = app_view(dump, '/admin', ['a0']) != app_view(dump0, '/admin', ['a0'])
+    happened = bool(app_effs) or changed
+    term = '(RO %s %s %s)' % (c_acfg({'u': 'x'}, ro, mode, '/admin'), cstr(ev), cbool(happened))
+    return term, happened, app_effs, changed
+
+
 def part_c(chk, cases, meta):
     rng = chk.rng.sub('c')
-    reps = 6 if chk.thorough else 2
-    setup = [('eio_connect', 'e0', {'REMOTE_ADDR': 'e0'}), ('msg', 'e0', server_hist.eio_decode(server_hist.frame(0, '/'))),
-             ('eio_connect', 'e1', {'REMOTE_ADDR': 'e1'}), ('msg', 'e1', server_hist.eio_decode(server_hist.frame(0, '/chat'))),
-             ('msg', 'e1', server_hist.eio_decode(server_hist.frame(0, '/'))),
-             ('enter', 'S0', 'r1', '/'), ('enter', 'S2', 'r1', '/'),
-             ('admin_eio_connect', 'a0'), ('admin_connect', 'a0', {'u': 'x'})]
+    reps = 12 if chk.thorough else 2
     for is_async in (False, True):
         for mode, ro in MODES:
             for rep in range(reps):
@@ -496,21 +546,14 @@ def part_c(chk, cases, meta):
                     else:
                         args = [ns, False, flt]
                     pid = rng.choice([None, 7])
-                    admin = {'auth': {'u': 'x'}, 'mode': mode, 'read_only': ro}
-                    ops = setup + [('admin_event', 'a0', ev, args, pid)]
                     try:
-                        res0, dump0, d0 = admin_drv.run_ops(RO_CFG, setup, 'async' if is_async else 'sync', rep % 2 == 0, admin)
-                        res, dump, d = admin_drv.run_ops(RO_CFG, ops, 'async' if is_async else 'sync', rep % 2 == 0, admin)
+                        term, happened, app_effs, changed = ro_case(is_async, rep % 2 == 0, mode, ro, ev, args, pid)
                     except Exception as e:
                         chk.broken_obligation('driver error in RO case: %r' % (e,))
                         continue
-                    effs = res[-1][0]
-                    app_effs = [e for e in effs if (e[0] == 'Out' and e[1] != 'a0') or e[0] in ('Call', 'CbCall')]
-                    changed = app_view(dump, '/admin', ['a0']) != app_view(dump0, '/admin', ['a0'])
-                    happened = bool(app_effs) or changed
-                    term = '(RO %s %s %s)' % (c_acfg({'u': 'x'}, ro, mode, '/admin'), cstr(ev), cbool(happened))
                     cases.append(term)
-                    meta.append({'part': 'RO', 'replay': {'part': 'RO', 'async': is_async, 'mode': mode, 'read_only': ro,
+                    meta.append({'part': 'RO', 'replay': {'part': 'RO', 'async': is_async, 'coro': rep % 2 == 0,
+                                                          'mode': mode, 'read_only': ro,
                                                           'event': ev, 'args': repr(args), 'id': pid,
                                                           'application_effects': repr(app_effs[:4]),
                                                           'state_changed': changed}})
@@ -606,7 +649,7 @@ EDGE_HISTORIES = [
 
 def part_d(chk, cases, meta):
     rng = chk.rng.sub('d')
-    n = 1500 if chk.thorough else 150
+    n = 4000 if chk.thorough else 150
     for i in range(n):
         mix, cfg, ops = gen_tr_history(rng, chk.thorough)
         mode = 'async' if i % 2 else 'sync'
@@ -727,6 +770,53 @@ def tr_signature(m):
     return 'instrumented-final-state-differs-%s' % amode
 
 
+def shrink_tr(m, sig):
+    """Delta-debugging of a violating side-by-side history (admin operations are kept in place);
+    candidates are judged in Python (projected effect lists differ, same signature), the result is
+    re-judged in Coq by the caller."""
+    import ast
+    cfg, mixed, mode, coro, amode, ro = ast.literal_eval(m['replay']['py'])
+    admin = {'auth': {'u': 'x'}, 'mode': amode, 'read_only': ro}
+
+    def bad(cand):
+        ops = [o for a, o in cand if not a]
+        try:
+            term, info = tr_case(cfg, ops, mode, coro, admin, cand)
+        except Exception:
+            return None
+        mm = {'part': 'TR', 'tr': (ops, info['plain'], info['instr'], info['A'], amode)}
+        differs = any(p != [e for e in x if not (e[0] == 'Out' and e[1] in info['A']) and e[0] != 'BgRaised']
+                      for (p, _), (x, _) in zip(info['plain'], info['instr']))
+        return term if differs and tr_signature(mm) == sig else None
+    cur = list(mixed)
+    chunk = max(1, len(cur) // 2)
+    budget = 60
+    while budget > 0 and len(cur) > 1:
+        hit = None
+        for i in range(0, len(cur), chunk):
+            cand = cur[:i] + [x for x in cur[i:i + chunk] if x[0]] + cur[i + chunk:]
+            if len(cand) == len(cur):
+                continue
+            budget -= 1
+            if bad(cand) is not None:
+                hit = cand
+                break
+            if budget <= 0:
+                break
+        if hit is not None:
+            cur = hit
+            chunk = max(1, min(chunk, len(cur) // 2))
+        elif chunk == 1:
+            break
+        else:
+            chunk = max(1, chunk // 2)
+    term = bad(cur)
+    if term is None:
+        return None
+    return term, {'part': 'TR', 'py': repr((cfg, cur, mode, coro, amode, ro)),
+                  'operations': [repr(o) for _, o in cur]}
+
+
 def classify(m, code):
     """signature and text for a case with bit 2."""
     part = m['part']
@@ -735,7 +825,7 @@ def classify(m, code):
     elif m.get('signature'):
         sig = m['signature']
     elif part == 'CN':
-        if m.get('pred') == 'acall':
+        if m.get('shape') == 'async-callable':
             sig = SIG_ACALL
         elif m.get('pred') is not None and not m.get('call_ok') and m.get('member'):
             sig = SIG_RAISES
@@ -788,6 +878,16 @@ def evaluate(chk, cases, meta, gen_ok):
             seen.add(sig)
             rep = dict(m['replay'])
             rep['case'] = cases[idx][:4000]
+            if m['part'] == 'TR' and 'py' in rep:
+                try:
+                    small = shrink_tr(m, sig)
+                    if small is not None:
+                        c2, e2 = coqio.eval_cases('c18_shr', imports, '', 'c18case', [small[0]], fn)
+                        if not e2 and c2.get(0, 0) & 2:
+                            rep = small[1]
+                            rep['case'] = small[0][:4000]
+                except Exception:
+                    pass
             chk.violation(sig, what, rep)
         else:
             corr.append((idx, code))
@@ -855,28 +955,26 @@ def run(chk):
 
 
 def replay(chk, data):
+    """Re-run the recorded scenario on the real classes of the tree under test and re-judge it in Coq."""
     import ast
     rep = data['replay']
     part = rep.get('part')
     chk.regenerate()
     coqio.build(['Admin/AdminGenCheck.v'])
     print('signature:', data.get('signature'))
+    term = None
     if part == 'TR':
         cfg, mixed, mode, coro, amode, ro = ast.literal_eval(rep['py'])
         ops = [o for a, o in mixed if not a]
         admin = {'auth': {'u': 'x'}, 'mode': amode, 'read_only': ro}
         term, info = tr_case(cfg, ops, mode, coro, admin, mixed)
-        codes, errors = coqio.eval_cases('c18_replay', IMPORTS_GEN, '', 'c18case', [term], 'c18_eval')
-        print('code (bit 2 = the projection of the instrumented run differs from the plain run):', codes.get(0, 0), errors)
         for o, (p, _), (x, _) in zip(ops, info['plain'], info['instr']):
             xa = [e for e in x if not (e[0] == 'Out' and e[1] in info['A'])]
             print(('   ' if p == xa else '!! '), o, '\n      plain       ', p, '\n      instrumented', xa)
-        return 0 if not codes.get(0) else 1
-    case = rep.get('case')
-    if case:
-        codes, errors = coqio.eval_cases('c18_replay', IMPORTS_GEN, '', 'c18case', [case], 'c18_eval')
-        print('recorded case re-judged in Coq: code', codes.get(0, 0), errors)
-    if part == 'LK':
+        if info['runaway']:
+            print('run-away instrumented trace: judged in Python')
+            return 1
+    elif part == 'LK':
         ops = ast.literal_eval(rep['ops'])
         before, window, after, member = admin_drv.run_pending_auth({'mode': rep['mode'], 'read_only': rep['read_only']},
                                                                    ops, rep['verdict'])
@@ -884,8 +982,34 @@ def replay(chk, data):
         for e in window:
             print('   ', e[2][:160])
         print('answer afterwards:', [e[2] for e in after], 'member:', member)
-        return 1 if window else 0
-    for k, v in rep.items():
-        if k != 'case':
-            print('  %s: %s' % (k, v))
-    return 0 if not (case and codes.get(0)) else 1
+        term = '(LK %d%%nat)' % len(window)
+    elif part == 'CN':
+        desc = ast.literal_eval(rep['auth'])
+        payload = ast.literal_eval(rep['payload'])
+        term, info = cn_case(rep['async'], rep['always_connect'], rep['mode'], rep['read_only'], desc, payload)
+        print('class:', 'AsyncServer' if rep['async'] else 'Server', ' auth:', desc, ' payload:', payload)
+        print('answers:', info['answers'], ' member afterwards:', info['member'],
+              ' predicate result:', info['call'], ' admin events received:', info['events'])
+    elif part == 'TV':
+        desc = ast.literal_eval(rep['auth'])
+        payload = ast.literal_eval(rep['payload'])
+        (term, ok), = tv_case(rep['async'], desc, rep['mode'], rep['read_only'], [payload])
+        print('auth:', desc, ' payload:', payload, ' accepted:', ok)
+    elif part == 'IV':
+        term, flags = iv_case(rep['async'], ast.literal_eval(rep['mode']), ast.literal_eval(rep['read_only']),
+                              rep.get('namespace', '/admin'))
+        print('wrappers installed:', flags)
+    elif part == 'RO':
+        term, happened, app_effs, changed = ro_case(rep['async'], rep.get('coro', False), rep['mode'], rep['read_only'],
+                                                    rep['event'], ast.literal_eval(rep['args']), rep['id'])
+        print('application effects:', app_effs, ' state changed:', changed)
+    if term is None:
+        print('nothing to replay for part', part)
+        return 0
+    codes, errors = coqio.eval_cases('c18_replay', IMPORTS_GEN, '', 'c18case', [term], 'c18_eval')
+    if errors:
+        codes, errors = coqio.eval_cases('c18_replay', IMPORTS_SPEC, '', 'c18case', [term], 'c18_eval_spec')
+    code = codes.get(0, 0)
+    print('checker code (bit 1 = real class departs from the generated functions / server model, '
+          'bit 2 = property violated):', code, errors or '')
+    return 0 if code == 0 else 1
